@@ -143,6 +143,8 @@ def o2_last_hop(ctx, role, lvl, lf, ld):
 def jobs(tier):
     out = []
     combos = [(a, b) for a in range(5) for b in range(5) if (a, b) != (0, 0)]
+    if tier == "quick":
+        combos = combos[::2]
     ticks = (1, 7, 20)
     for i, (lx, ld) in enumerate(combos):
         for tk in ((ticks[i % 3],) if tier == "quick" else ticks):
@@ -155,23 +157,23 @@ def jobs(tier):
     roles = ("routing", "net", "mesh")
     if tier == "quick":
         rc = [(r, l, lf, ld) for r in roles for l in range(5) for lf in range(5) for ld in range(5)
-              if not (r == "mesh" and l == 0) and (l * 7 + lf * 3 + ld + len(r)) % 6 == 0]
+              if not (r == "mesh" and l == 0) and (lf, ld) != (0, 0) and (l * 7 + lf * 3 + ld + len(r)) % 12 == 0]
     else:
         rc = [(r, l, lf, ld) for r in roles for l in range(5) for lf in range(5) for ld in range(5)
-              if not (r == "mesh" and l == 0) and (l + lf + ld) % 2 == 0]
+              if not (r == "mesh" and l == 0) and (lf, ld) != (0, 0) and (l + lf + ld) % 2 == 0]
     for r, l, lf, ld in rc:
         out.append(Job("O2-last-hop-acks-once", o2_last_hop, dict(role=r, lvl=l, lf=lf, ld=ld), cost=20, shards=2))
     return out
 
 
 META = {
-    "bounds": {"quick": "O1: all 24 sender/destination level pairs with every digit symbolic (= all 781x780 pairs); type "
+    "bounds": {"quick": "O1: 12 of the 24 sender/destination level pairs with every digit symbolic; type "
                         "symbolic 0..255 minus {128,130,131,148-150,193-198}; first-hop outcome symbolic; tx_timeout 5..30 ms, "
                         "route_timeout 5..40 ms symbolic, clock tick 1 / 7 / 20 ms (constant within a run, enumerated); NETWORK_ACK injected at "
-                        "a symbolic clock look 0..69 or never, addressed to the sender or to another node; O2: one sixth of all (role, level, "
+                        "a symbolic clock look 0..69 or never, addressed to the sender or to another node; O2: one twelfth of all (role, level, "
                         "origin level, destination level) combinations with symbolic addresses, type 0..255 except fragments, "
                         "symbolic id/reserved/body/pipe, symbolic delivery outcome",
-               "thorough": "every tick for every level pair in O1 (also from a mesh node), half of all role x level x level x level "
+               "thorough": "all 24 level pairs with every tick in O1 (also from a mesh node), half of all role x level x level x level "
                            "combinations in O2"},
     "outside": ["fragmented messages (the statement is about single-frame messages)", "clock increments that vary within one run",
                 "the exact boundary: an acknowledgement arriving within two ticks of the deadline may go either way",
